@@ -93,6 +93,8 @@ func (r RemoveIntersections) processStruct(_ *Visitor, _ *ast.Schema, def ast.Ty
 		if field.Type.IsRef() {
 			if obj, ok := r.objectsToRemove[field.Type.AsRef().ReferredType]; ok {
 				def.AsStruct().Fields[i] = ast.NewStructField(field.Name, ast.NewRef(obj.SelfRef.ReferredPkg, obj.SelfRef.ReferredType), ast.Comments(obj.Comments))
+				def.AsStruct().Fields[i].Required = field.Required
+				def.AsStruct().Fields[i].Type.Nullable = field.Type.Nullable
 			}
 			if obj, ok := r.arraysToFix[field.Type.AsRef().ReferredType]; ok {
 				def.AsStruct().Fields[i] = ast.NewStructField(field.Name, ast.NewArray(obj.Type.AsArray().ValueType), ast.Comments(obj.Comments))
